@@ -184,6 +184,19 @@ impl Response {
             }
         }
 
+        // A response to which the status code allows no body ends after the headers, whatever
+        //   length they announce (a 304 may carry the length of the representation it omits).
+        let code: u16 = status.into();
+
+        if (100..200).contains(&code) || code == 204 || code == 304 {
+            return Ok(Self {
+                version,
+                status_code: status,
+                headers,
+                body: Vec::new(),
+            });
+        }
+
         // The names of transfer codings are case-insensitive.
         if headers
             .get(&HeaderType::TransferEncoding)
@@ -226,15 +239,12 @@ impl Response {
             })
         } else {
             // With neither a length nor chunking, the body is delimited by the end of the
-            //   connection, unless the status code does not allow a body at all.
-            let code: u16 = status.into();
+            //   connection.
             let mut body: Vec<u8> = Vec::new();
 
-            if !((100..200).contains(&code) || code == 204 || code == 304) {
-                reader
-                    .read_to_end(&mut body)
-                    .map_err(|_| ResponseError::Stream)?;
-            }
+            reader
+                .read_to_end(&mut body)
+                .map_err(|_| ResponseError::Stream)?;
 
             Ok(Self {
                 version,
